@@ -120,7 +120,7 @@ func (e *fxEstimator) Rate() int {
 	return e.rate
 }
 
-func (e *fxEstimator) GoodH1Update(a, b int) {
+func (e *fxEstimator) GoodHUpdate(a, b int) {
 	e.mu.Lock()
 	defer e.mu.Unlock()
 	r := clampFx(min(a, b), e.min, e.max)
